@@ -11,6 +11,12 @@
   (`with_rollback` restores the cursor and the counts, not the octets), so continuing needs the one
   fact about the writer this file does NOT prove and takes as the named hypothesis `ScratchIndep`:
   a writer call of the answering phase does not read octets at or above the cursor.
+
+  SUPERSEDED: `ScratchIndep` quantifies over all writer states and is FALSE for states whose prior names
+  or hints point at or above the cursor.  The pass that C10 uses is Proofs/ServerAnswerTwoRunI.lean
+  (hypothesis `ScratchIndepI`: the same, next to a state that satisfies `Writer.I` with a valid hint).
+  This file is kept for `Same.symm` / `Same.trans` / `same_hv` / `same_lift_inv` and as the state-free
+  version of the pass; nothing in the properties depends on `ScratchIndep`.
 -/
 import QV.Proofs.ServerAnswerMono
 
@@ -47,7 +53,8 @@ theorem same_lift_inv (d : Nat) (B0 t : State) (h : Same (lift d B0) t) : ∃ t0
   · exact ⟨h.size, h.pre, h.cursor, rfl, rfl, h.rrStart, h.sect, h.qd, h.an, h.ns, h.ar, h.qname,
       h.owner, h.inRdata, h.mode, h.edns, h.tsig, h.gLabels, h.gPtrs, h.gCtx⟩
 
-/-- **scratch independence** (the named hypothesis; a fact about the writer, not proved here): a writer
+/-- **scratch independence, without the invariant** (superseded by `ServerContent.ScratchIndepI`; false
+    for states whose prior names or hints point at or above the cursor): a writer
     call of the answering phase run on two states that agree on everything but the octets at and above
     the cursor has the same outcome and leaves two such states (and the same hint vector).
     `compress_decision` is the only reader of the octets; it must be shown to look only below the
